@@ -61,6 +61,19 @@ def run(rep, facts):
             ws = [r.nodes.index(nd) for (pl, val, nd, s_) in r.writes if pl[0] == 'field' and pl[2] == 'input_len' and r.nodes.index(nd) > pos_drive]
             pos_move = max(ws) - 0.5 if ws else None      # a statement precedes its block's terminator
         pos_clear = position_of_call(r, "std::vec::Vec::clear")
+        if pos_drive is None:
+            # a path that does not drive at all: outside this clause iff the parser was already finished when the call began (the statement
+            # speaks of "a request parser that has not finished"); what such a call must still do is C03's / C05's subject (R3.2, R5.6)
+            fin = None
+            for (e, lab, n_) in r.conds:
+                pe = ir.peel(e, casts=False)
+                if pe[0] == 'discr' and self_field(pe[1], 'state'):
+                    if case_value(lab) is not None:
+                        fin = facts.variant_name("parser::request::State", case_value(lab)) in ("Done", "Fatal")
+                    break
+            if fin and done == 1 and not any(pl[2] == 'state' for (pl, val, nd, s_) in r.writes):
+                n_rows -= 1
+                continue
         if pos_move is None or pos_drive is None or pos_clear is None or not (pos_clear < pos_drive < pos_move):
             bad.append("a return path does not clear the output, drive the state machine and compact the input, in this order")
             continue
